@@ -25,10 +25,10 @@ RULE = (
     "call. Otherwise 1-2 sort-* filters; for n<=6 the window (first,last) of filter 0 is the (index//5)-th of the "
     "n(n+1)/2 windows (stratified), n up to 8 sampled; raw configured weights with zeros; maps over objectives and "
     "constraints with -1 entries; NaN failure masks (40% of runs) incl. emptied windows. Non-trivial = at least one "
-    "weight row compared with the reference window; distinct = coarse scenario key + windows."
+    "weight row compared with the reference window; distinct = coarse scenario key + windows. 4%: 17-40 realizations with exact ties in the sort key and failures; 5%: EnsembleEvaluator.calculate driven directly (functions then gradient alone, or both) with a window that can only select realizations without weight."
 )
 ASSUMPTIONS = [
-    "rank comparison only when the sort values of successful realizations are pairwise > 1e-9 apart",
+    "rank comparison only when the sort values of successful realizations are pairwise > 1e-9 apart or exactly equal (exact ties are ranked by realization index)",
     "sort value of inactive (zero configured weight) realizations is whatever the evaluator returned (they are not evaluated)",
 ]
 COMPONENTS = {
